@@ -546,12 +546,12 @@ impl Prop for WriterProp {
         match (self.c14, tier, dbg) {
             (false, Tier::Quick, true) => 200_000,
             (false, Tier::Quick, false) => 100_000,
-            (false, Tier::Thorough, true) => 8_000_000,
-            (false, Tier::Thorough, false) => 6_000_000,
+            (false, Tier::Thorough, true) => 40_000_000,
+            (false, Tier::Thorough, false) => 30_000_000,
             (true, Tier::Quick, true) => 100_000,
             (true, Tier::Quick, false) => 50_000,
-            (true, Tier::Thorough, true) => 3_000_000,
-            (true, Tier::Thorough, false) => 1_000_000,
+            (true, Tier::Thorough, true) => 12_000_000,
+            (true, Tier::Thorough, false) => 4_000_000,
         }
     }
 
